@@ -918,4 +918,92 @@ def handleIncomingSSRCHead (s : Session) (isAnswer withoutAnswer midOK ridOK : B
               let _ ← idx codecs 0
               pure .beyond
 
+/-! ### handleIncomingSSRC: the mid / rid / rsid probing loop over the transceivers (peerconnection.go) -/
+
+/-- what `handleUnknownRTPPacket` extracts from one packet (pion/rtp parsing is external) -/
+structure PktIds where
+  mid : Str
+  rid : Str
+  rsid : Str
+  paddingOnly : Bool
+  deriving Repr, DecidableEq
+
+/-- a transceiver as the probing loop sees it: `t.Mid()` and `t.Receiver()` — `none` for a transceiver
+    without receiver (send-only, created by AddTransceiverFromTrack); a receiver is (closed, RIDs of its tracks) -/
+structure ProbeTr where
+  mid : Str
+  receiver : Option (Bool × List Str)
+  deriving Repr, DecidableEq
+
+inductive ProbeResult where
+  | rid (i : Nat)      -- nil: receiveForRid bound the stream to a track of transceiver i
+  | rtx (i : Nat)      -- nil: receiveForRtx bound it as repair stream of a track of transceiver i
+  | notFound           -- errRTPReceiverForRIDTrackStreamNotFound
+  | eof                -- the chosen receiver is closed
+  | readErr            -- interceptor.Read failed
+  | failed             -- errPeerConnSimulcastIncomingSSRCFailed
+  deriving Repr, DecidableEq
+
+/-- `for _, t := range pc.GetTransceivers() { receiver := t.Receiver(); if t.Mid() != mid || receiver == nil
+    { continue }; … receiver.receiveForRtx / receiver.receiveForRid … }`; `none` = no transceiver matched -/
+def probeTransceivers (mid rid rsid : Str) : List ProbeTr → Nat → Res (Option ProbeResult)
+  | [], _ => .val none
+  | t :: ts, i =>
+    if t.mid != mid || t.receiver.isNone then probeTransceivers mid rid rsid ts (i + 1)
+    else do
+      let r ← deref t.receiver            -- the method call on `receiver`
+      if rsid != [] then
+        pure (some (if r.1 then .eof else if r.2.contains rsid then .rtx i else .notFound))
+      else
+        pure (some (if r.1 then .eof else if r.2.contains rid then .rid i else .notFound))
+
+/-- `for readCount := 0; readCount <= simulcastProbeCount; readCount++ { … }` with `simulcastProbeCount = 10`;
+    `q` = what further `interceptor.Read` calls yield (empty = the read fails) -/
+def probeLoop (trs : List ProbeTr) : Nat → Nat → PktIds → List PktIds → Res ProbeResult
+  | 0, _, _, _ => .val .failed
+  | fuel + 1, n, st, q =>
+    if n > 10 then .val .failed
+    else if st.mid == [] || (st.rid == [] && st.rsid == []) then
+      match q with
+      | [] => .val .readErr
+      | p :: q' => probeLoop trs fuel (if st.paddingOnly then n else n + 1) p q'
+    else do
+      let r ← probeTransceivers st.mid st.rid st.rsid trs 0
+      match r with
+      | some x => pure x
+      | none => probeLoop trs fuel (n + 1) st q
+
+/-- the part of `handleIncomingSSRC` after `streamsForSSRC`: ids of the peeked packet (its padding flag is
+    ignored), then the loop; the peeked packet is the first one the stream returns again -/
+def probe (trs : List ProbeTr) (first : PktIds) (rest : List PktIds) : Res ProbeResult :=
+  probeLoop trs (rest.length + 13) 0 { first with paddingOnly := false } (first :: rest)
+
+/-- the loop as it would be with `receiver == nil` dropped from the guard -/
+def probeTransceiversNoNilGuard (mid rid rsid : Str) : List ProbeTr → Nat → Res (Option ProbeResult)
+  | [], _ => .val none
+  | t :: ts, i =>
+    if t.mid != mid then probeTransceiversNoNilGuard mid rid rsid ts (i + 1)
+    else do
+      let r ← deref t.receiver
+      if rsid != [] then
+        pure (some (if r.1 then .eof else if r.2.contains rsid then .rtx i else .notFound))
+      else
+        pure (some (if r.1 then .eof else if r.2.contains rid then .rid i else .notFound))
+
+/-- `RTPReceiver.readRTP(b, reader)` once `received` is closed (what `TrackRemote.Read` / `peek` call): tracks
+    are given by their RTP readers (`none` = configured but never bound: a second SSRC of the section of a
+    started receiver); `i` = position of `reader` among the tracks (out of range = not a track of this
+    receiver). `some k` = reader of track k used, `none` = error. As repaired by commit 9a29e20. -/
+def receiverReadRTP (tracks : List (Option Nat)) (i : Nat) : Res (Option Nat) :=
+  match tracks[i]? with
+  | none => .val none
+  | some none => .val none
+  | some (some r) => (deref (some r)) >>= fun x => pure (some x)
+
+/-- … and before: `if t := r.streamsForTrack(reader); t != nil { return t.rtpInterceptor.Read(b, a) }` -/
+def receiverReadRTPOld (tracks : List (Option Nat)) (i : Nat) : Res (Option Nat) :=
+  match tracks[i]? with
+  | none => .val none
+  | some t => (deref t) >>= fun x => pure (some x)
+
 end WebrtcVerif.RemoteInput
